@@ -13,7 +13,7 @@
    Marshal/Unmarshal, MarshalIndent, Encoder/Decoder and streams), not modelled. *)
 From Coq Require Import NArith ZArith List Bool Arith Lia String.
 From GJ Require Import Base.Bytes Base.Word64 Gen.Tables Spec.Json Model.Int Model.StrEnc Model.StrDec Model.Enc Model.TreeRead
-  Proofs.WordP Proofs.IntEncP Proofs.IntDecP Proofs.IntScanP Proofs.StrBodyP Proofs.StrDecP Proofs.EncP Proofs.ParseP Proofs.LeafP Proofs.TreeReadP Model.Decode Model.EncTyped Proofs.RoundTripP Model.Base64 Proofs.Base64P Proofs.Base64JsonP.
+  Proofs.WordP Proofs.IntEncP Proofs.IntDecP Proofs.IntScanP Proofs.StrBodyP Proofs.StrDecP Proofs.EncP Proofs.ParseP Proofs.LeafP Proofs.TreeReadP Model.Decode Model.EncTyped Proofs.RoundTripP Model.Base64 Proofs.Base64P Proofs.Base64JsonP Proofs.DecodeP.
 From GJ Require Properties.C17.
 Import ListNotations.
 Open Scope list_scope.
@@ -80,7 +80,7 @@ Proof. intros html s Hs. exact (C17.C17_string_roundtrip html false s Hs). Qed.
 Print Assumptions C04_string_round_trip.
 
 (* (4) typed: for every type of the modelled fragment (bool, integers of every width, strings, pointers, slices, arrays,
-   maps with string keys, structs, []byte; Model/EncTyped.v and Model/Decode.v, both run beside the implementation) and every
+   maps with string or integer keys, structs, []byte; Model/EncTyped.v and Model/Decode.v, both run beside the implementation) and every
    round-trippable value of it -- integers in range, strings that UTF-8 normalisation leaves alone, no pointer to a nil
    nilable, map members in key order, interface{} nil -- decoding what the encoder writes into a fresh value gives
    the value back *)
@@ -102,6 +102,21 @@ Example C04_typed_example :
   let v := VStruct [VPtr (VSlice [VInt (-128); VInt 127]); VMap [([107], VStr [34; 60]); ([108], VStr [])]; VArr [VInt 0; VInt 65535]; VNil] in
   rt t v = true /\ marshal_typed t v = str ("{""a"":[-128,127],""b"":{""k"":""\""\u003c"",""l"":""""},""c"":[0,65535],""d"":null}")%string /\
   dec 10 t (encj t v) (zero t) = DOk v.
+Proof. vm_compute. repeat split; reflexivity. Qed.
+
+(* integer-keyed maps are part of (4): Marshal writes the key with the integer printer between quotes, Unmarshal parses the
+   contents of the key with ParseInt / ParseUint (Model/Decode.v key_int: optional sign for signed keys, digits, leading
+   zeros allowed, inside the range); what the printer writes for a key in range reads back as that key, every width *)
+Theorem C04_integer_key_round_trip : forall signed bits z,
+  (bits =? 8) || (bits =? 16) || (bits =? 32) || (bits =? 64) = true -> in_range signed bits z = true ->
+  key_int signed bits (int_key signed bits z) = Some z.
+Proof. exact key_int_of_int_key. Qed.
+Example C04_integer_key_example :
+  let t := TMapI true 8 (TMapI false 16 TBool) in
+  let v := VMap [(str "-128", VMap [(str "0", VBool true); (str "65535", VBool false)]); (str "127", VNil)]%string in
+  rt t v = true /\ marshal_typed t v = str ("{""-128"":{""0"":true,""65535"":false},""127"":null}")%string /\ dec 10 t (encj t v) (zero t) = DOk v /\
+  key_int true 8 (str "+5")%string = Some 5%Z /\ key_int true 8 (str "007")%string = Some 7%Z /\ key_int true 8 (str "128")%string = None /\
+  key_int false 8 (str "+5")%string = None /\ key_int false 8 (str "-0")%string = None /\ key_int true 8 (str "-0")%string = Some 0%Z.
 Proof. vm_compute. repeat split; reflexivity. Qed.
 
 (* (5) byte slices: Marshal writes base64 (padded standard alphabet) between quotes, Unmarshal hands the contents of
